@@ -80,6 +80,38 @@ ctx     UNITS CONTEXT OF EVERY CONSTRUCTION STEP.  The objects of one propagatio
           units-context/hierarchy-built-inside/reorganisation-energy-in-context-units
                         (root cause seen on the hierarchy object; dynamics skipped)
 
+starts  TIME AXES THAT DO NOT START AT ZERO.  TimeAxis(t0, nt, dt) with t0 over the
+        alphabet AXIS_STARTS (negative, positive, not a multiple of the step, far from
+        zero) x (system x construction path x time step) x every spanning state x depths.
+        The initial state belongs to the FIRST point of the axis, so every reference is a
+        function of the elapsed time t - t0: all oracles of section dyn apply
+        (closed-system/*, analytic/*, trace/*, hermiticity/*) plus class R equality with the
+        same system, path, depth and state on the axis TimeAxis(0, nt, dt) (the hierarchy
+        equations are autonomous).  For the one-call accessor the axis is the one the bath
+        correlation functions were defined on.  Keys carry the prefix
+          axis-start/...   and   axis-start/differs-from-axis-starting-at-zero/<system>
+
+coupling  SYSTEM-BATH COUPLING OPERATORS OTHER THAN "bath k = projector on site k".
+        KTHierarchy takes its V_k from SystemBathInteraction.KK, i.e. ANY list of real
+        symmetric operators with one correlation function each; the number of baths is
+        independent of the number of sites.  Alphabet (coupling_alphabet): baths listed in
+        reverse / cyclic site order, baths on a subset of the sites, two baths on one site,
+        scaled and negated projectors, one bath shared by two sites, an anticorrelated
+        bath, a bath on the ground state, the energy-gap operator, the unit operator, the
+        site-exchange operator (not diagonal) x {uncoupled, coupled sites} x {given
+        coupling strength, zero} x every spanning state x depths, direct construction.
+        Oracles: trace/*, hermiticity/* always; closed-system/* for zero strength; the
+        index-set / links / gamma oracles for the NUMBER OF BATHS (!= number of sites);
+        analytic/* whenever the model is exactly solvable, i.e. H and all V_k commute
+        (uncoupled sites with diagonal V_k; coupled sites under a shared bath or the unit
+        operator): in the joint eigenbasis
+          rho_ab(t) = rho_ab(0) exp(-i w_ab t - sum_k [(c_ka-c_kb)^2 Re g_k(t)
+                                                       + i (c_ka^2-c_kb^2) Im g_k(t)])
+        (mc/refmodels/commuting_dephasing.py; for site projectors this IS exp(-iwt-g(t)) /
+        exp(-iwt-g_k-g_l^*)), same class Q numbers and admissibility rule as section dyn with
+        kappa = sqrt(2 kT sum_k lam_k (c_ka-c_kb)^2) / min gamma_k.  Keys:
+          coupling/<class>/...
+
 calls   PROPAGATION-CALL HISTORIES ON ONE PROPAGATOR OBJECT.  A call is (option, initial
         state); options = {o: propagate(rho), f: propagate(rho, free_hierarchy=True),
         r: propagate(rho, report_hierarchy=True)} (thorough: also both flags).  Product
@@ -93,6 +125,11 @@ calls   PROPAGATION-CALL HISTORIES ON ONE PROPAGATOR OBJECT.  A call is (option,
         (uncoupled sites, depth 5).
           calls/differs-from-fresh-propagator/<option>-after-<options used before>/*
           calls/closed-system/*, calls/analytic/*, calls/trace/*, calls/hermiticity/*
+        RESULTS HELD BY THE CALLER: every evolution returned by a checked call is kept (the
+        object, not a copy) and read again after EVERY later call of the history (any
+        option, any state): it must still hold exactly the data it held when it was
+        returned - the dynamics of ITS initial state.
+          calls/earlier-result-changed-by-later-call/<earlier option>-then-<later option>/*
 """
 import contextlib
 
@@ -103,6 +140,7 @@ from mc.explore import run_grid, product, rotate
 from mc.refmodels import hierarchy_index as HI
 from mc.refmodels import lineshape as LS
 from mc.refmodels import closed_rwa as CR
+from mc.refmodels import commuting_dephasing as CD
 
 LEVEL = "model_checking"
 
@@ -203,6 +241,37 @@ def _uctx_site(uctx):
             (True, True): "both-built-inside"}[(h, p)]
 
 
+def _ham_sbi_general(energies, J, baths, ta, e0=0.0):
+    """Hamiltonian + SystemBathInteraction whose k-th system operator is the real symmetric
+    matrix baths[k]["op"] (any number of baths, any operators) -> (ham, sbi)."""
+    qr = isolation.qr()
+    from quantarhei.qm.corfunctions import CorrelationFunctionMatrix
+    from quantarhei.qm import SystemBathInteraction, Operator
+    n = len(energies)
+    dim = n + 1
+    h = numpy.zeros((dim, dim))
+    h[0, 0] = e0
+    for i in range(n):
+        h[i + 1, i + 1] = energies[i]
+        for j in range(n):
+            if i != j:
+                h[i + 1, j + 1] = J[i][j]
+    with qr.energy_units("1/cm"):
+        ham = qr.Hamiltonian(data=h)
+    K = len(baths)
+    cfm = CorrelationFunctionMatrix(ta, K, K)
+    ops = []
+    for k, b in enumerate(baths):
+        op = numpy.array(b["op"], dtype=float)
+        if op.shape != (dim, dim) or float(numpy.max(numpy.abs(op - op.T))) != 0.0:
+            raise isolation.HarnessError("coupling operator %d is not a real symmetric "
+                                         "%d x %d matrix" % (k, dim, dim))
+        cfm.set_correlation_function(systems.corfce(ta, b), [(k, k)], k + 1)
+        ops.append(Operator(data=op))
+    sbi = SystemBathInteraction(ops, cfm)
+    return ham, sbi
+
+
 def _build(case, depth):
     """Fresh time axis, system, hierarchy and propagator -> (propagator, ham, ta)."""
     qr = isolation.qr()
@@ -210,9 +279,11 @@ def _build(case, depth):
     en = [float(e) for e in case["energies"]]
     n = len(en)
     J = case.get("J") or [[0.0] * n for _ in range(n)]
-    ta = systems.time_axis(int(case["nt"]), float(case["dt"]))
+    ta = systems.time_axis(int(case["nt"]), float(case["dt"]), float(case.get("t0", 0.0)))
     baths = _bath_list(case["bath"], n)
     uctx = case.get("uctx") or {}
+    if case.get("coupling") and case["via"] != "direct":
+        raise isolation.HarnessError("general coupling operators: direct construction only")
     uh, up = uctx.get("h"), uctx.get("p")
     if case["via"] in ("agg", "agg-h"):
         agg = systems.aggregate(en, J=J, bath=baths, ta=ta, e0=float(case.get("e0", 0.0)))
@@ -234,7 +305,10 @@ def _build(case, depth):
                 pr = agg.get_KTHierarchyPropagator(depth)
             hy = pr.hy
     else:
-        ham, sbi = systems.ham_sbi(en, J, baths, ta, e0=float(case.get("e0", 0.0)))
+        if case.get("coupling"):
+            ham, sbi = _ham_sbi_general(en, J, baths, ta, e0=float(case.get("e0", 0.0)))
+        else:
+            ham, sbi = systems.ham_sbi(en, J, baths, ta, e0=float(case.get("e0", 0.0)))
         isolation.reset_units()
         if case.get("jphase"):
             ham = _complex_hamiltonian(en, J, float(case.get("e0", 0.0)), case["jphase"])
@@ -348,6 +422,42 @@ def _r(x, nd=3):
     return float("%.*e" % (nd - 1, x))
 
 
+def _op_str(v):
+    """Readable form of a small real symmetric operator."""
+    v = numpy.asarray(v, dtype=float)
+    terms = []
+    for a in range(v.shape[0]):
+        for b in range(a, v.shape[1]):
+            if v[a, b] != 0.0:
+                ket = "|%d><%d|" % (a, b) if a == b else "(|%d><%d|+h.c.)" % (a, b)
+                terms.append(("%g" % v[a, b] if v[a, b] != 1.0 else "") + ket)
+    return " + ".join(terms).replace("+ -", "- ") if terms else "0"
+
+
+_T0_REF = {}
+
+
+def _zero_start_reference(case, depth):
+    """The same system, construction path, depth and initial state on TimeAxis(0, nt, dt).
+    Deterministic; memoised per worker process."""
+    key = repr((case["energies"], case.get("J"), case["bath"], case["via"], case["rwa"],
+                case["nt"], case["dt"], case.get("e0", 0.0), case.get("jphase", 0), depth,
+                case["state"]))
+    if key not in _T0_REF:
+        if len(_T0_REF) > 64:
+            _T0_REF.clear()
+        qr = isolation.qr()
+        c0 = dict(case)
+        c0.pop("t0", None)
+        pr0, _, ta0 = _build(c0, depth)
+        if float(ta0.data[0]) != 0.0:
+            raise isolation.HarnessError("reference axis does not start at zero")
+        rho0 = spanning_states(len(case["energies"]) + 1)[case["state"]][1]
+        _T0_REF[key] = numpy.array(
+            pr0.propagate(qr.ReducedDensityMatrix(data=rho0.copy())).data)
+    return _T0_REF[key]
+
+
 def eval_dyn(case):
     qr = isolation.qr()
     en = case["energies"]
@@ -366,6 +476,11 @@ def eval_dyn(case):
         sysname += "/complexH"
     viol, seen = [], set()
     uctx = case.get("uctx") or None
+    t0 = float(case.get("t0", 0.0))
+    coupling = case.get("coupling") or None
+    if (1 if uctx else 0) + (1 if t0 != 0.0 else 0) + (1 if coupling else 0) > 1:
+        raise isolation.HarnessError("units context / axis start / coupling operators are "
+                                     "separate sub-products")
     prefix, ctxdesc = "", ""
     if uctx:
         prefix = "units-context/%s/" % _uctx_site(uctx)
@@ -373,7 +488,18 @@ def eval_dyn(case):
             "inside energy_units(%r)" % uctx["h"] if uctx.get("h") else "outside any context",
             "inside energy_units(%r)" % uctx["p"] if uctx.get("p") else "outside any context",
             case["via"])
+    if t0 != 0.0:
+        prefix = "axis-start/"
+        ctxdesc = "[time axis TimeAxis(%g, %d, %g), path %s] " % (t0, case["nt"], case["dt"],
+                                                                 case["via"])
+    Vs = None
+    if coupling:
+        prefix = "coupling/%s/" % coupling
+        Vs = [numpy.array(b["op"], dtype=float) for b in baths]
+        ctxdesc = "[system-bath operators (%s): %s] " % (
+            coupling, "; ".join("V_%d = %s" % (k, _op_str(v)) for k, v in enumerate(Vs)))
     worst_ctx = 0.0
+    worst_t0 = 0.0
     ctx_root = False
 
     def add(key, what, det=None, raw=False):
@@ -390,7 +516,7 @@ def eval_dyn(case):
     kappa = {g: 0.0 for g in groups}
     for a in range(N):
         for b in range(N):
-            if a == b or abs(rho0[a, b]) == 0.0:
+            if coupling or a == b or abs(rho0[a, b]) == 0.0:
                 continue
             inv = [baths[x - 1] for x in (a, b) if x > 0]
             kT = LS.kBT_int(inv[0]["T"])
@@ -401,8 +527,11 @@ def eval_dyn(case):
     admissible = {g: kappa[g] <= KAPPA_MAX for g in groups}
     worst = {"trace": 0.0, "herm": 0.0, "closed": 0.0, "closed_ratio": 0.0}
     digest = []
-    analytic_applies = (not coupled) and (not all_zero) and ht
+    # general coupling operators: exactly solvable iff H and all V_k commute (decided on the
+    # Hamiltonian handed to the hierarchy, below); site projectors: iff the sites are uncoupled
+    analytic_applies = ((not coupled) or bool(coupling)) and (not all_zero) and ht
     analytic_skipped = None
+    solvable = None
     moved = 0.0
     deep = bool(case.get("deep"))
     mono_floor = max(MONO_FLOOR, DEEP_FLOOR_C * float(case["dt"]) ** 4) if deep else MONO_FLOOR
@@ -426,10 +555,21 @@ def eval_dyn(case):
                     raw=True)
                 ctx_root = True
                 continue
+        if coupling and case["state"] == 0:
+            # number of baths != number of sites: the index set belongs to the baths
+            for name, det in _index_defects(hy, len(baths), depth,
+                                            [1.0 / float(b["cortime"]) for b in baths]):
+                add("%s/K=%d" % (name, len(baths)), "depth %d, %d baths on %d sites: %s"
+                    % (depth, len(baths), n, det), {"depth": depth})
         rhoi = qr.ReducedDensityMatrix(data=rho0.copy())
         rt = pr.propagate(rhoi)
         d = numpy.array(rt.data)
-        t = numpy.array(ta.data, dtype=float)
+        t_abs = numpy.array(ta.data, dtype=float)
+        if t_abs[0] != t0:
+            raise isolation.HarnessError("time axis starts at %r, specified %r" % (t_abs[0], t0))
+        # the initial state belongs to the FIRST point of the axis: all references are
+        # functions of the elapsed time (for an axis starting at zero: t - 0.0 = t exactly)
+        t = t_abs - t_abs[0]
         if d.shape != (len(t), N, N):
             add("shape/%s" % sysname, "depth %d: result has shape %s, expected %s"
                 % (depth, d.shape, (len(t), N, N)))
@@ -452,6 +592,23 @@ def eval_dyn(case):
                 add("differs-from-construction-outside-a-context/%s" % sysname,
                     "depth %d state %s: result differs by %.3g from the same objects created "
                     "outside any units context" % (depth, label, e_ctx), {"depth": depth})
+        # ---- same objects on an axis with the same step starting at zero ------------
+        if t0 != 0.0:
+            d0 = _zero_start_reference(case, depth)
+            if d0.shape != d.shape or not numpy.all(numpy.isfinite(d0)):
+                raise isolation.HarnessError("reference on the axis starting at zero is not "
+                                             "finite")
+            dev_t = numpy.max(numpy.abs(d - d0), axis=(1, 2))
+            e_t0 = float(numpy.max(dev_t))
+            worst_t0 = max(worst_t0, e_t0)
+            tol_t0 = RTOL * max(1.0, float(numpy.max(numpy.abs(d0))))
+            if e_t0 > tol_t0:
+                k = int(numpy.argmax(dev_t > tol_t0))
+                add("differs-from-axis-starting-at-zero/%s" % sysname,
+                    "depth %d state %s: result differs by %.3g (first at stored index %d) "
+                    "from the same system on TimeAxis(0, %d, %g)"
+                    % (depth, label, e_t0, k, case["nt"], case["dt"]),
+                    {"depth": depth, "time_index": k})
         # ---- trace and Hermiticity at every stored time -----------------------
         tr = numpy.trace(d, axis1=1, axis2=2)
         e_tr = float(numpy.max(numpy.abs(tr - 1.0)))
@@ -471,6 +628,21 @@ def eval_dyn(case):
         H = numpy.array(ham.data, dtype=complex)
         om = numpy.array(ham.rwa_energies, dtype=float)
         frame_ok = CR.commutes(H, om)
+        if coupling and solvable is None:
+            Hrot = H - numpy.diag(om)
+            solvable = bool(frame_ok and CD.commute_all(Hrot, Vs))
+            if analytic_applies and not solvable:
+                analytic_applies = False
+                analytic_skipped = "coupling-operators-do-not-commute"
+            if analytic_applies:
+                kap = CD.coupling_strength(
+                    rho0, Hrot, Vs, [LS.to_int(b["reorg"]) for b in baths],
+                    [1.0 / float(b["cortime"]) for b in baths], LS.kBT_int(baths[0]["T"]))
+                if kap is None:
+                    raise isolation.HarnessError("commuting operators without a joint "
+                                                 "eigenbasis")
+                kappa = {g: float(kap) for g in groups}
+                admissible = {g: kappa[g] <= KAPPA_MAX for g in groups}
         # ---- zero coupling strength -> closed system --------------------------
         if all_zero and frame_ok:
             ref = CR.closed_evolution(H, om, rho0, t)
@@ -493,7 +665,7 @@ def eval_dyn(case):
                 lam, gam, kBT = LS.bath_params_int(b)
                 gs.append(LS.g_ht(t, lam, gam, kBT))
                 c_lib = numpy.array(hy.sbi.CC.get_correlation_function(k, k).data)
-                c_ref = LS.corfce_ht(t, lam, gam, kBT)
+                c_ref = LS.corfce_ht(t_abs, lam, gam, kBT)
                 sc_c = max(float(numpy.max(numpy.abs(c_ref))), 1e-300)
                 if c_lib.shape != c_ref.shape or \
                         float(numpy.max(numpy.abs(c_lib - c_ref))) > BATH_GUARD_RTOL * sc_c:
@@ -507,8 +679,14 @@ def eval_dyn(case):
                 analytic_applies = False
                 analytic_skipped = "bath-guard"
             else:
-                ref = LS.pure_dephasing_solution(rho0, t, numpy.real(numpy.diag(H)) - om, gs,
-                                                 [None] + list(range(n)))
+                if coupling:
+                    ref = CD.solution(rho0, t, H - numpy.diag(om), Vs, gs)
+                    if ref is None:
+                        raise isolation.HarnessError("commuting operators without a joint "
+                                                     "eigenbasis")
+                else:
+                    ref = LS.pure_dephasing_solution(rho0, t, numpy.real(numpy.diag(H)) - om,
+                                                     gs, [None] + list(range(n)))
                 for g, m in groups.items():
                     errs[g].append(float(numpy.max(numpy.abs((d - ref)[:, m]))) if m.any() else 0.0)
         elif analytic_applies and not frame_ok:
@@ -540,7 +718,9 @@ def eval_dyn(case):
     superpos = case["state"] >= N
     excited_pop = 1 <= case["state"] < N
     nontrivial = bool((superpos or (coupled and excited_pop)) and moved > 1e-6)
-    info = {"sec": "ctx" if uctx else "dyn", "worst_ctx": worst_ctx, "ctx_root": ctx_root,
+    info = {"sec": "ctx" if uctx else "starts" if t0 != 0.0 else "coupling" if coupling
+            else "dyn", "worst_ctx": worst_ctx, "ctx_root": ctx_root, "worst_t0": worst_t0,
+            "t0": t0, "coupling": coupling, "solvable": solvable, "nbath": len(baths),
             "worst": worst, "errs": errs if analytic_applies else None,
             "amp": amp, "analytic": bool(analytic_applies), "skipped": analytic_skipped,
             "kappa": kappa, "admissible": admissible,
@@ -553,6 +733,10 @@ def eval_dyn(case):
         outcome.append(case["jphase"])
     if uctx:
         outcome.append([uctx.get("h"), uctx.get("p")])
+    if t0 != 0.0:
+        outcome.append(["t0", t0])
+    if coupling:
+        outcome.append(["coupling", coupling, [b["cortime"] for b in baths]])
     if deep:
         outcome.append(["deep", depths, [b["cortime"] for b in baths], case["nt"]])
     return {"nontrivial": nontrivial, "outcome": outcome, "violations": viol,
@@ -841,14 +1025,39 @@ def eval_calls(case):
     used = []
     worst = {"fresh": 0.0, "closed_ratio": 0.0, "analytic": 0.0}
     nchecked, nafter, moved = 0, 0, 0.0
+    held = []           # results the caller keeps: [step, option, state, object, data then]
+    nheld, held_distinct = 0, 0
     for step, (opt, si) in enumerate(zip(word, sidx)):
         label, rho0 = states[si]
         name, kw = CALL_OPTS[opt]
         rt = pr.propagate(qr.ReducedDensityMatrix(data=rho0.copy()), **kw)
+        # ---- evolutions returned by EARLIER calls, still held by the caller, are the
+        # dynamics of THEIR initial states whatever ran on the propagator afterwards
+        for h in held:
+            s0, n0, l0, obj, snap = h
+            now = numpy.array(obj.data)
+            nheld += 1
+            held_distinct += 1 if sidx[s0] != si else 0
+            same = now.shape == snap.shape and bool(numpy.all(
+                (now == snap) | (numpy.isnan(now) & numpy.isnan(snap))))
+            if not same:
+                e = float(numpy.max(numpy.abs(now - snap))) if now.shape == snap.shape \
+                    else float("nan")
+                add("calls/earlier-result-changed-by-later-call/%s-then-%s/%s"
+                    % (n0, name, sysname),
+                    "the evolution returned by call #%d (%s, state %s) changed by %.3g while "
+                    "call #%d (%s, state %s) ran on the same propagator (history %s on states "
+                    "%s); returned objects are %s"
+                    % (s0, n0, l0, e, step, name, label,
+                       "-".join(CALL_OPTS[o][0] for o in word), [states[i][0] for i in sidx],
+                       "one and the same" if obj is rt else "different"),
+                    {"earlier": s0, "later": step})
+                h[4] = now              # report every change once, at the call that made it
         before = "+".join(sorted(set(used))) if used else "nothing"
         used.append(name)
         if opt not in CALL_CHECKED:
             continue
+        held.append([step, name, label, rt, numpy.array(rt.data)])
         nchecked += 1
         nafter += 1 if step > 0 else 0
         how = "%s-after-%s" % (name, before)
@@ -912,6 +1121,7 @@ def eval_calls(case):
             "n": len(word) - 1,
             "info": {"sec": "calls", "worst": worst, "checked": nchecked,
                      "checked_after_earlier_call": nafter, "analytic": bool(analytic),
+                     "held_checks": nheld, "held_checks_other_state": held_distinct,
                      "closed": bool(all_zero and frame_ok),
                      "after_free": any(CALL_OPTS[o][1].get("free_hierarchy")
                                        for o in word[:-1])}}
@@ -1193,6 +1403,155 @@ def ctx_cases(tier):
     return out
 
 
+# ---- time axes that do not start at zero ----------------------------------------------
+AXIS_STARTS = {"quick": [-7.5, 25.0], "thorough": [-40.0, -7.5, 0.5, 25.0, 1000.0]}
+
+
+def starts_cases(tier):
+    """(axis start != 0) x (system x construction path x time step) x every spanning state
+    x depths.  TimeAxis(t0, nt, dt): the initial state belongs to the first point."""
+    out = []
+
+    def add(energies, J, bath, via, nt, dt, depths, e0=0.0, jphase=0, rwa="blocks"):
+        N = len(energies) + 1
+        for t0 in AXIS_STARTS[tier]:
+            for s in range(N * N):
+                c = {"sec": "dyn", "energies": energies, "J": J, "bath": bath, "via": via,
+                     "rwa": rwa, "nt": nt, "dt": dt, "state": s, "depths": depths,
+                     "e0": e0, "t0": t0}
+                if jphase:
+                    c["jphase"] = jphase
+                out.append(c)
+
+    mixed2 = [_bath(30, 50), _bath(20, 40)]
+    dim = [E0, E0 + 200.0]
+    if tier == "quick":
+        # analytic clause, optical coherence (one-call accessor: the axis of the bath)
+        add([E0], None, _bath(30.0), "agg", 50, 2.0, [0, 3, 5])
+        # zero coupling strength: closed-system clause
+        add(dim, _J(2, 100.0), _bath(0.0), "direct", 50, 2.0, [0, 2])
+        # uncoupled sites, different baths: inter-site analytic clause
+        add(dim, _J(2, 0.0), mixed2, "agg", 30, 2.0, [3, 5])
+        # coupled open system: equality with the axis starting at zero, trace, Hermiticity
+        add(dim, _J(2, 100.0), _bath(30.0), "agg-h", 40, 2.0, [2])
+        return out
+    for via in ("agg", "direct"):
+        for nt, dt in ((100, 1.0), (50, 2.0)):
+            for e0 in (0.0, 300.0):
+                add([E0 + e0], None, _bath(30.0), via, nt, dt, [0, 2, 4, 6], e0=e0)
+            add(dim, _J(2, 100.0), _bath(0.0), via, nt, dt, [0, 2])
+            add(dim, _J(2, 0.0), mixed2, via, nt, dt, [0, 3, 6])
+            add(dim, _J(2, 100.0), _bath(30.0), via, nt, dt, [0, 2, 4])
+    add(dim, _J(2, 100.0), _bath(30.0), "agg-h", 50, 2.0, [3])
+    add(dim, _J(2, 0.0), _bath(30.0), "direct", 50, 2.0, [0, 3, 6], rwa="per-site")
+    en3 = [E0, E0 + 200.0, E0 - 100.0]
+    for b in (_bath(0.0), _bath(30.0)):
+        add(en3, _J(3, 100.0), b, "direct", 50, 2.0, [0, 2])
+        add(en3, systems.full_J(3, [100.0]), b, "direct", 50, 2.0, [0, 2], jphase=30)
+    add(en3, _J(3, 0.0), [_bath(30, 50), _bath(20, 40), _bath(40, 60)], "agg", 50, 2.0, [3, 5])
+    return out
+
+
+# ---- system-bath coupling operators that are not the site projectors in site order ------
+def _diag_op(N, coeffs):
+    """Diagonal operator sum_a coeffs[a] |a><a| as a nested list (coeffs: {state: c})."""
+    m = [[0.0] * N for _ in range(N)]
+    for a, c in coeffs.items():
+        m[a][a] = float(c)
+    return m
+
+
+def _flip_op(N, a, b):
+    m = [[0.0] * N for _ in range(N)]
+    m[a][b] = m[b][a] = 1.0
+    return m
+
+
+def coupling_alphabet(n):
+    """[(class, [(operator, bath)])] for n two-level sites (states 0 = ground, 1..n).
+    The hierarchy takes V_k from SystemBathInteraction.KK, which accepts any list of real
+    operators: the number of baths is independent of the number of sites."""
+    N = n + 1
+    bA, bB, bC, bw = _bath(30, 50), _bath(20, 40), _bath(10, 60), _bath(10, 50)
+    ident = {a: 1.0 for a in range(N)}
+    if n == 1:
+        return [
+            ("two-baths-on-one-site", [(_diag_op(N, {1: 1}), bA), (_diag_op(N, {1: 1}), bB)]),
+            ("scaled-projector", [(_diag_op(N, {1: 0.5}), bA)]),
+            ("negated-projector", [(_diag_op(N, {1: -1}), bA)]),
+            ("bath-on-ground-state", [(_diag_op(N, {0: 1}), bA)]),
+            ("energy-gap-operator", [(_diag_op(N, {0: -0.5, 1: 0.5}), bA)]),
+            ("unit-operator", [(_diag_op(N, ident), bA)])]
+    if n == 2:
+        return [
+            ("baths-in-reverse-site-order", [(_diag_op(N, {2: 1}), bA), (_diag_op(N, {1: 1}), bB)]),
+            ("bath-on-last-site-only", [(_diag_op(N, {2: 1}), bA)]),
+            ("bath-on-first-site-only", [(_diag_op(N, {1: 1}), bA)]),
+            ("two-baths-on-one-site", [(_diag_op(N, {1: 1}), bA), (_diag_op(N, {1: 1}), bC),
+                                       (_diag_op(N, {2: 1}), bB)]),
+            ("scaled-projectors", [(_diag_op(N, {1: 0.5}), bA), (_diag_op(N, {2: -1}), bB)]),
+            ("shared-bath", [(_diag_op(N, {1: 1, 2: 1}), bA)]),
+            ("anticorrelated-bath", [(_diag_op(N, {1: 1, 2: -1}), bw)]),
+            ("bath-on-ground-state", [(_diag_op(N, {0: 1}), bA), (_diag_op(N, {2: 1}), bB)]),
+            ("unit-operator", [(_diag_op(N, ident), bA)]),
+            ("site-exchange-operator", [(_flip_op(N, 1, 2), bA)])]
+    if n == 3:
+        return [
+            ("baths-on-sites-1-and-3", [(_diag_op(N, {1: 1}), bA), (_diag_op(N, {3: 1}), bB)]),
+            ("baths-in-cyclic-site-order", [(_diag_op(N, {2: 1}), bA), (_diag_op(N, {3: 1}), bB),
+                                            (_diag_op(N, {1: 1}), bC)]),
+            ("shared-bath-on-two-sites", [(_diag_op(N, {1: 1, 2: 1}), bA),
+                                          (_diag_op(N, {3: 1}), bB)])]
+    raise isolation.HarnessError("no coupling alphabet for %d sites" % n)
+
+
+def coupling_cases(tier):
+    """(system) x (coupling class of the alphabet) x (coupling strength {given, 0}) x every
+    spanning state x depths, direct construction."""
+    out = []
+
+    def add(energies, J, cls, spec, nt, dt, depths, zero=False):
+        N = len(energies) + 1
+        bath = [dict(b, op=op, reorg=0.0 if zero else b["reorg"]) for op, b in spec]
+        for s in range(N * N):
+            out.append({"sec": "dyn", "energies": energies, "J": J, "bath": bath,
+                        "coupling": cls, "via": "direct", "rwa": "blocks", "nt": nt, "dt": dt,
+                        "state": s, "depths": depths, "e0": 0.0})
+
+    dim = [E0, E0 + 200.0]
+    en3 = [E0, E0 + 200.0, E0 - 100.0]
+    q = tier == "quick"
+    nt, dt = (40, 2.0) if q else (75, 2.0)
+    DA = [2, 5] if q else [0, 2, 4, 6]          # analytic clause: final level calibrated
+    DS = [2] if q else [0, 2, 4]                # no reference but trace / Hermiticity
+    for cls, spec in coupling_alphabet(1):
+        add([E0], None, cls, spec, nt, dt, DA)
+    # quick tier: the two members with three baths (largest index sets) are left to the
+    # thorough tier; their classes stay represented (two baths on the one site of a
+    # monomer; baths in reverse site order)
+    skip = ("two-baths-on-one-site", "baths-in-cyclic-site-order") if q else ()
+    for cls, spec in coupling_alphabet(2):
+        if cls in skip:
+            continue
+        # uncoupled sites: every diagonal class is exactly solvable
+        add(dim, _J(2, 0.0), cls, spec, nt, dt, DA)
+        # coupled sites: solvable iff every V_k commutes with H (shared bath, unit operator)
+        solv = cls in ("shared-bath", "unit-operator")
+        if solv or not q or cls in ("baths-in-reverse-site-order", "site-exchange-operator"):
+            add(dim, _J(2, 100.0), cls, spec, nt, dt, DA if solv else DS)
+        # zero coupling strength: closed system whatever the operators are
+        if not q or cls in ("baths-in-reverse-site-order", "site-exchange-operator"):
+            add(dim, _J(2, 100.0), cls, spec, nt, dt, [0, 2], zero=True)
+    for cls, spec in coupling_alphabet(3):
+        if cls in skip:
+            continue
+        add(en3, _J(3, 0.0), cls, spec, 30 if q else 50, 2.0, [2, 5] if q else [0, 3, 5])
+        if not q:
+            add(en3, _J(3, 100.0), cls, spec, 50, 2.0, [0, 2])
+            add(en3, _J(3, 100.0), cls, spec, 50, 2.0, [0, 2], zero=True)
+    return out
+
+
 # calls: (name, energies, J, bath, via, depth, nt, dt, P1 = largest length of the full
 # (option x spanning state) history product, P2 = (shortest, longest) option word whose
 # earlier calls use the generic state and whose last call runs over the spanning set)
@@ -1243,10 +1602,23 @@ def calls_cases(tier):
 
 def cases(tier):
     return (index_cases(tier) + hist_cases(tier) + dyn_cases(tier) + ctx_cases(tier)
-            + calls_cases(tier))
+            + starts_cases(tier) + coupling_cases(tier) + calls_cases(tier))
 
 
 # ----------------------------------------------------------------------------
+def _worst_final(infos):
+    """Largest admissible final-level analytic error relative to the initial amplitude."""
+    w = {"optical": 0.0, "intersite": 0.0, "population": 0.0}
+    for inf in infos:
+        if not (inf["analytic"] and inf["errs"]):
+            continue
+        for g in w:
+            if inf["admissible"][g] and inf["errs"][g]:
+                a = inf["amp"][g] if inf["amp"][g] > 0 else 1.0
+                w[g] = max(w[g], inf["errs"][g][-1] / a)
+    return w
+
+
 def run(run):
     run.rule = ("index: full product (bath type x construction path x K baths x depth), "
                 "non-trivial = K>=2 and depth>=2; hist: full product (open system x every "
@@ -1272,7 +1644,14 @@ def run(run):
                 "to Lmax, earlier calls on the generic state, last call on every spanning "
                 "state); every call returning a propagated density matrix is compared with a "
                 "fresh propagator; non-trivial = a checked call follows an earlier call and "
-                "its fresh reference moves by more than 1e-6")
+                "its fresh reference moves by more than 1e-6; every returned evolution is "
+                "held and re-read after every later call of its history; starts: full "
+                "product (axis start t0 != 0 of the alphabet x system x construction path x "
+                "time step) x every spanning state x depths, oracles and non-triviality of "
+                "dyn on the elapsed time plus class R equality with the axis starting at "
+                "zero; coupling: full product (system x coupling class of the alphabet x "
+                "{given strength, zero}) x every spanning state x depths, oracles and "
+                "non-triviality of dyn with the exact solution of the commuting model")
     run.assumptions = [
         "reference models: mc/refmodels/hierarchy_index.py (compositions, neighbour tables), "
         "lineshape.py (g(t) of the high-temperature overdamped Brownian oscillator), "
@@ -1308,6 +1687,20 @@ def run(run):
         "the propagated state, not about the units that are current during the call.  The "
         "system (Hamiltonian, baths, aggregate) is always assembled before, outside the "
         "varied steps; units are reset by the harness after every step (isolation from C05)",
+        "starts: the initial state handed to propagate() is the state at the first point of "
+        "the time axis; the stored evolution at point k is the state after the elapsed time "
+        "k*dt.  The bath guard compares the attached C(t) samples on the absolute times of "
+        "the axis (that is where the library samples them); the hierarchy uses only the "
+        "parameters",
+        "coupling: operators are real symmetric matrices (SystemBathInteraction stores real "
+        "operators), handed over through SystemBathInteraction(list of Operator, "
+        "CorrelationFunctionMatrix) - direct construction only (the aggregate builder makes "
+        "site projectors in site order; vibronic aggregates, whose builder-made operators "
+        "are block projectors, are not in the alphabet: get_KTHierarchy hard-codes the "
+        "rotating-wave blocks [0, 1], which is not a slow frame for them).  The analytic "
+        "clause is applied iff H - Omega and all V_k commute pairwise (checked numerically on "
+        "the Hamiltonian handed to the hierarchy); its reference is the exact second-cumulant "
+        "solution in the joint eigenbasis, mc/refmodels/commuting_dephasing.py",
         "calls: what propagate(rho, free_hierarchy=True) returns is not claimed (kernel mode, "
         "not a propagated reduced density matrix); such calls only act as earlier history.  "
         "Histories containing them need level 1 to exist: depth >= 1 everywhere in this "
@@ -1359,12 +1752,34 @@ def run(run):
                            "x baths {0, 30, mixed}; dimers with ground state off zero; coupled "
                            "trimer x lambda {0,30}",
                 "initial states": "all N^2 members of the spanning set"},
+        "starts": {"axis starts": AXIS_STARTS[run.tier],
+                   "systems": "monomer lambda 30 (agg); coupled dimer lambda 0 (direct); "
+                              "uncoupled dimer, two different baths (agg); coupled open dimer "
+                              "(agg-h)" if q else
+                              "monomers e0 {0,300} lambda 30; dimers: coupled lambda {0,30}, "
+                              "uncoupled mixed baths; x paths {agg, direct} x (100 x 1 fs, "
+                              "50 x 2 fs); agg-h; per-site rotating-wave reference; trimers: "
+                              "chain lambda {0,30}, complex ring, uncoupled mixed baths",
+                   "initial states": "all N^2 members of the spanning set"},
+        "coupling": {"classes": {"%d site(s)" % k: [c for c, _ in coupling_alphabet(k)]
+                                 for k in (1, 2, 3)},
+                     "quick tier leaves to thorough": ["two-baths-on-one-site (dimer)",
+                                                       "baths-in-cyclic-site-order"] if q else [],
+                     "systems": "monomer; dimer gap 200 x J {0, 100 (solvable classes, reverse "
+                                "order, site exchange)}; uncoupled trimer" if q else
+                                "monomer; dimer gap 200 x J {0,100}; trimer J {0,100}",
+                     "coupling strength": "as given; zero (closed system) for " +
+                                          ("reverse order and site exchange" if q else
+                                           "every class on the coupled systems"),
+                     "initial states": "all N^2 members of the spanning set"},
         "calls": {"options": {k: CALL_OPTS[k][0] for k in _calls_space(run.tier)[0]},
                   "systems (sites, path, depth, nt x dt, P1 max length, P2 lengths)":
                       [[len(x[0]), x[3], x[4], "%d x %g" % (x[5], x[6]), x[7], list(x[8])]
                        for x in _calls_space(run.tier)[1]],
                   "states": "P1: N^2 spanning states in every call; P2: generic state in the "
-                            "earlier calls, N^2 spanning states in the last"},
+                            "earlier calls, N^2 spanning states in the last",
+                  "held results": "every evolution returned by a checked call, re-read after "
+                                  "every later call of the history"},
         "tolerances": {"R": RTOL, "T": "2 x Taylor-%d bound + R" % TAYLOR_ORDER,
                        "Q_optical": TOL_OPTICAL, "Q_intersite": TOL_INTERSITE,
                        "Q_population": TOL_POPULATION, "Q_admissible_kappa_max": KAPPA_MAX,
@@ -1438,6 +1853,41 @@ def run(run):
                                                or [0.0]),
         "analytic_cases": sum(1 for i in xinfos if i["analytic"] and i["errs"]),
         "hierarchy_parameter_root_cause_cases": sum(1 for i in xinfos if i["ctx_root"])})
+    # ---- time axes that do not start at zero ------------------------------------------
+    sc = starts_cases(run.tier)
+    order = sorted(range(len(sc)), key=lambda i: -(len(sc[i]["energies"]) * 10
+                                                   + max(sc[i]["depths"])))
+    sinfos = run_grid(run, [sc[i] for i in order], eval_case, section="starts", chunksize=1)
+    run.note(axis_starts={
+        "cases": len(sinfos), "starts": AXIS_STARTS[run.tier],
+        "worst_deviation_from_axis_starting_at_zero": max([i["worst_t0"] for i in sinfos]
+                                                          or [0.0]),
+        "closed_system_cases": sum(1 for i in sinfos if all(l == 0.0 for l in i["lam"])),
+        "closed_system_fraction_of_bound": max([i["worst"]["closed_ratio"] for i in sinfos]
+                                               or [0.0]),
+        "analytic_cases": sum(1 for i in sinfos if i["analytic"] and i["errs"]),
+        "analytic_rel_error_at_Dmax": _worst_final(sinfos)})
+    # ---- system-bath coupling operators other than the site projectors in site order ---
+    kc = coupling_cases(run.tier)
+    order = sorted(range(len(kc)), key=lambda i: -(len(kc[i]["energies"]) * 10
+                                                   + len(kc[i]["bath"]) * max(kc[i]["depths"])))
+    kinfos = run_grid(run, [kc[i] for i in order], eval_case, section="coupling", chunksize=1)
+    run.note(coupling_operators={
+        "cases": len(kinfos),
+        "classes": sorted(set(i["coupling"] for i in kinfos)),
+        "baths_vs_sites": sorted(set("%d baths / %s" % (i["nbath"], i["sys"].split("/")[0])
+                                     for i in kinfos)),
+        "exactly_solvable_cases": sum(1 for i in kinfos if i["solvable"]),
+        "analytic_cases": sum(1 for i in kinfos if i["analytic"] and i["errs"]),
+        "analytic_rel_error_at_Dmax": _worst_final(kinfos),
+        "analytic_rel_error_at_Dmax_by_class": {
+            c: _worst_final([i for i in kinfos if i["coupling"] == c])
+            for c in sorted(set(i["coupling"] for i in kinfos))},
+        "analytic_final_level_not_applied_kappa_gt_max": sum(
+            1 for i in kinfos if i["analytic"] and i["errs"]
+            and not all(i["admissible"].values())),
+        "closed_system_fraction_of_bound": max([i["worst"]["closed_ratio"] for i in kinfos]
+                                               or [0.0])})
     # ---- call histories on one propagator --------------------------------------------
     cinfos = run_grid(run, calls_cases(run.tier), eval_case, section="calls")
     run.note(call_histories={
@@ -1445,6 +1895,10 @@ def run(run):
         "checked_calls": sum(i["checked"] for i in cinfos),
         "checked_calls_after_an_earlier_call": sum(i["checked_after_earlier_call"]
                                                    for i in cinfos),
+        "held_earlier_results_compared_after_a_later_call": sum(i["held_checks"]
+                                                                for i in cinfos),
+        "of_these_later_call_on_another_initial_state": sum(i["held_checks_other_state"]
+                                                            for i in cinfos),
         "cases_with_free_hierarchy_call_before_the_last": sum(1 for i in cinfos
                                                               if i["after_free"]),
         "worst_deviation_from_fresh_propagator": max([i["worst"]["fresh"] for i in cinfos]
